@@ -252,11 +252,11 @@ struct array_types : private Layout {  // cppcheck-suppress syntaxError ; false 
 	#pragma clang diagnostic ignored "-Wunknown-warning-option"
 	#pragma clang diagnostic ignored "-Wunsafe-buffer-usage"  // TODO(correaa) use checked span
 	#endif
-	       constexpr auto origin()           const&       -> decltype(auto) {return base_ + Layout::origin();}
+	       constexpr auto origin()           const&       -> element_const_ptr {return base_ + Layout::origin();}
 	#if defined(__clang__)
 	#pragma clang diagnostic pop
 	#endif
-	friend constexpr auto origin(array_types const& self) -> decltype(auto) {return self.origin();}
+	friend constexpr auto origin(array_types const& self) -> element_const_ptr {return self.origin();}
 
  protected:
 	BOOST_MULTI_NO_UNIQUE_ADDRESS
@@ -2058,6 +2058,10 @@ class subarray : public const_subarray<T, D, ElementPtr, Layout> {
 	BOOST_MULTI_HD constexpr auto base() const& -> typename subarray::element_const_ptr { return this->base_; }
 	BOOST_MULTI_HD constexpr auto base() &  -> ElementPtr { return this->base_; }
 	BOOST_MULTI_HD constexpr auto base() && -> ElementPtr { return this->base_; }
+
+	constexpr auto origin() const& -> typename subarray::element_const_ptr { return this->base_ + this->layout().origin(); }
+	constexpr auto origin()      & -> ElementPtr { return this->base_ + this->layout().origin(); }
+	constexpr auto origin()     && -> ElementPtr { return this->base_ + this->layout().origin(); }
 	// BOOST_MULTI_HD constexpr auto base() const& -> element_const_ptr {return base_;}
 
 	constexpr auto operator=(const_subarray<T, D, ElementPtr, Layout> const& other) & -> subarray& {
